@@ -185,6 +185,7 @@ impl serde::Serialize for DM {
             "tuple_struct" => { let items = v[2].as_array().unwrap(); let mut st = ser.serialize_tuple_struct(leak(v[1].as_str().unwrap()), items.len())?; for i in items { st.serialize_field(&DM(i.clone()))?; } st.end() }
             "tuple_variant" => { let items = v[4].as_array().unwrap(); let mut st = ser.serialize_tuple_variant(leak(v[1].as_str().unwrap()), v[2].as_u64().unwrap() as u32, leak(v[3].as_str().unwrap()), items.len())?; for i in items { st.serialize_field(&DM(i.clone()))?; } st.end() }
             "map" => { let items = v[1].as_array().unwrap(); let mut st = ser.serialize_map(Some(items.len()))?; for kv in items { st.serialize_key(&DM(kv[0].clone()))?; st.serialize_value(&DM(kv[1].clone()))?; } st.end() }
+            "map_entry" => { let items = v[1].as_array().unwrap(); let mut st = ser.serialize_map(Some(items.len()))?; for kv in items { st.serialize_entry(&DM(kv[0].clone()), &DM(kv[1].clone()))?; } st.end() }
             "struct" => { let items = v[2].as_array().unwrap(); let mut st = ser.serialize_struct(leak(v[1].as_str().unwrap()), items.len())?; for kv in items { st.serialize_field(leak(kv[0].as_str().unwrap()), &DM(kv[1].clone()))?; } st.end() }
             "struct_variant" => { let items = v[4].as_array().unwrap(); let mut st = ser.serialize_struct_variant(leak(v[1].as_str().unwrap()), v[2].as_u64().unwrap() as u32, leak(v[3].as_str().unwrap()), items.len())?; for kv in items { st.serialize_field(leak(kv[0].as_str().unwrap()), &DM(kv[1].clone()))?; } st.end() }
             _ => Err(S::Error::custom("unknown data model kind")),
